@@ -31,17 +31,19 @@ type caseSpec struct {
 	Asyncers          int    // goroutines issuing AsyncWrite/Wake continuously
 	TickUs            int    // OnTick interval; TickBusyUs: time spent inside OnTick
 	TickBusyUs        int
-	DelayUs           int  // between activity start and the shutdown request
-	Backlog           int  // async requests queued behind a busy loop right before the request (Wake/OnTick sources)
-	CloseSaysShutdown bool // every OnClose returns Shutdown (also those invoked by the shutdown sweep itself)
+	DelayUs           int    // between activity start and the shutdown request
+	Backlog           int    // async requests queued behind a busy loop right before the request (Wake/OnTick sources)
+	CloseSaysShutdown bool   // every OnClose returns Shutdown (also those invoked by the shutdown sweep itself)
+	ClosePartner      string // during the shutdown, an OnClose closes another open connection of its loop (EventLoop.Close), as a relay closes its partner: "", next (the one opened right after it), last
 }
 
 func (c caseSpec) String() string {
-	return fmt.Sprintf("cfg: %s\n source=%s idle=%d streams=%d pending=%d dialers=%d asyncers=%d tick=%dus busy=%dus delay=%dus backlog=%d onCloseReturnsShutdown=%v",
-		c.Cfg, c.Source, c.Idle, c.Streams, c.Pending, c.Dialers, c.Asyncers, c.TickUs, c.TickBusyUs, c.DelayUs, c.Backlog, c.CloseSaysShutdown)
+	return fmt.Sprintf("cfg: %s\n source=%s idle=%d streams=%d pending=%d dialers=%d asyncers=%d tick=%dus busy=%dus delay=%dus backlog=%d onCloseReturnsShutdown=%v onCloseClosesPartner=%v",
+		c.Cfg, c.Source, c.Idle, c.Streams, c.Pending, c.Dialers, c.Asyncers, c.TickUs, c.TickBusyUs, c.DelayUs, c.Backlog, c.CloseSaysShutdown, c.ClosePartner)
 }
 
 type session struct {
+	nesting    map[gnet.EventLoop]int
 	cs         caseSpec
 	e          *fx.Engine
 	mu         sync.Mutex
@@ -70,6 +72,25 @@ func (s *session) lateCheck(what string) {
 		s.late = append(s.late, what)
 		s.mu.Unlock()
 	}
+}
+
+// nested tracks, per loop, whether a partner close is in progress; it reports the state
+// before a +1 and always false for a -1.
+func (s *session) nested(l gnet.EventLoop, d int) bool {
+	s.mu.Lock()
+	defer s.mu.Unlock()
+	if s.nesting == nil {
+		s.nesting = map[gnet.EventLoop]int{}
+	}
+	if d < 0 {
+		s.nesting[l]--
+		return false
+	}
+	if s.nesting[l] > 0 {
+		return true
+	}
+	s.nesting[l]++
+	return false
 }
 
 func (s *session) shouldFire(where string) bool {
@@ -117,6 +138,34 @@ func (c *cstate) OnClose(gc gnet.Conn, err error) gnet.Action {
 	c.s.lateCheck(fmt.Sprintf("OnClose conn%d", c.id))
 	atomic.AddInt32(&c.closes, 1)
 	close(c.closedCh)
+	if c.s.cs.ClosePartner != "" && atomic.LoadInt32(&c.s.trigger) >= 1 && !c.s.nested(gc.EventLoop(), +1) {
+		// (an OnClose that runs because a partner closed this connection does not close a third one:
+		// otherwise the first visit of a sweep would take the whole chain with it)
+		defer c.s.nested(gc.EventLoop(), -1)
+		c.s.mu.Lock()
+		conns := append([]*cstate(nil), c.s.conns...)
+		c.s.mu.Unlock()
+		open := func(p *cstate) bool {
+			return p != c && p.gc != nil && atomic.LoadInt32(&p.opens) == 1 && atomic.LoadInt32(&p.closes) == 0 && p.gc.EventLoop() == gc.EventLoop()
+		}
+		if c.s.cs.ClosePartner == "last" {
+			for i := len(conns) - 1; i >= 0; i-- {
+				if open(conns[i]) {
+					_ = gc.EventLoop().Close(conns[i].gc)
+					break
+				}
+			}
+		} else {
+			// the open connection of this loop that was opened right after this one: in a
+			// sweep its slot lies just ahead of the cursor, with live connections behind it
+			for i := c.id + 1; i < len(conns); i++ {
+				if open(conns[i]) {
+					_ = gc.EventLoop().Close(conns[i].gc)
+					break
+				}
+			}
+		}
+	}
 	if c.s.shouldFire("OnClose") {
 		return gnet.Shutdown
 	}
@@ -503,6 +552,7 @@ func drawCase(t *rapid.T) caseSpec {
 	cs.Streams = rapid.IntRange(0, 3).Draw(t, "streams")
 	cs.Pending = rapid.IntRange(0, 2).Draw(t, "pending")
 	cs.CloseSaysShutdown = rapid.IntRange(0, 3).Draw(t, "closeSaysShutdown") == 0
+	cs.ClosePartner = rapid.SampledFrom([]string{"", "", "", "", "next", "next", "last"}).Draw(t, "closePartner")
 	if cs.Source == "OnTraffic" || cs.Source == "OnTraffic+close" || cs.Source == "OnClose" || cs.Source == "Wake" {
 		if cs.Idle == 0 {
 			cs.Idle = 1
